@@ -19,6 +19,8 @@ ShapeFails(o) ==
 \cup (IF RunsInRect(o.cr, o.bbox) THEN {} ELSE {"contains_true_outside_bbox"})
 \cup (IF RunsInRect(o.pr, o.bbox) THEN {} ELSE {"point_outside_bbox"})
 \cup (IF \A i \in 1..Len(o.far) : o.far[i][3] = 0 THEN {} ELSE {"contains_true_far_outside"})
+\* o.ctd: probes at which the hit test through the ContainsPoint trait differs from the inherent contains()
+\cup (IF o.ctd = <<>> THEN {} ELSE {"contains_through_the_trait_differs"})
 
 \* points() observed through other Iterator methods (o.proto, recorded when next() showed the sequence o.pr of o.np
 \* points to be finite): they all describe the same sequence
